@@ -3,6 +3,7 @@ package pts
 import (
 	"bufio"
 	"errors"
+	"fmt"
 	"io"
 	"strconv"
 	"strings"
@@ -40,6 +41,10 @@ func ReadPointCloud(in io.Reader) (*modeling.Mesh, error) {
 		return nil, err
 	}
 
+	if parsedCount < 0 {
+		return nil, fmt.Errorf("pts declares a negative point count: %d", parsedCount)
+	}
+
 	readVerts := make([]vector3.Float64, parsedCount)
 	readColors := make([]vector3.Float64, parsedCount)
 	intensity := make([]float64, parsedCount)
@@ -48,6 +53,7 @@ func ReadPointCloud(in io.Reader) (*modeling.Mesh, error) {
 	readColor := false
 
 	curLine := 0
+	columns := -1
 	for scanner.Scan() && curLine < parsedCount {
 		line := strings.TrimSpace(scanner.Text())
 		if line == "" {
@@ -55,6 +61,20 @@ func ReadPointCloud(in io.Reader) (*modeling.Mesh, error) {
 		}
 
 		contents := strings.Fields(line)
+
+		// Every point of a pts file is written with the same set of columns.
+		// A line with fewer of them is a damaged (ex: truncated) file, and
+		// loading it would leave default values standing in for the missing
+		// data.
+		if len(contents) < 3 {
+			return nil, fmt.Errorf("pts point %d has %d columns, expected at least 3", curLine, len(contents))
+		}
+		if columns == -1 {
+			columns = len(contents)
+		}
+		if len(contents) != columns {
+			return nil, fmt.Errorf("pts point %d has %d columns, previous points have %d", curLine, len(contents), columns)
+		}
 
 		if len(contents) > 2 {
 			pos, err := ParseVec3(contents[0], contents[1], contents[2])
@@ -87,6 +107,10 @@ func ReadPointCloud(in io.Reader) (*modeling.Mesh, error) {
 
 	if scanner.Err() != nil {
 		return nil, scanner.Err()
+	}
+
+	if curLine < parsedCount {
+		return nil, fmt.Errorf("pts declares %d points but only contains %d: %w", parsedCount, curLine, io.ErrUnexpectedEOF)
 	}
 
 	v3Data := make(map[string][]vector3.Float64)
